@@ -65,71 +65,85 @@ func c08r2(c *Ctx) {
 	regNames := map[string]bool{"insertFront": true, "insertFrontExtended": true, "appendLast": true, "appendLastExtended": true}
 	keyGen := map[string]map[string]bool{}
 	n := 0
-	eachInstr(newFn, func(ins ssa.Instruction) {
-		call, ok := ins.(*ssa.Call)
-		if !ok {
-			return
-		}
-		o := calleeObj(call)
-		if o == nil || !regNames[o.Name()] {
-			return
-		}
-		args := call.Call.Args // recv, g, key, values, notValues
-		if len(args) != 5 {
-			return
-		}
-		n++
-		fv, fn := fieldOfLoad(args[3]), fieldOfLoad(args[4])
-		okp := fv != nil && fn != nil && fn.Name() == "Not"+fv.Name()
-		if okp {
-			b1, _ := fieldLoadOf(args[3], fv)
-			b2, _ := fieldLoadOf(args[4], fn)
-			okp = b1 == b2 || sameValue(b1, b2)
-		}
-		// `when` conditions: Values / NotValues
-		names := "?"
-		if fv != nil && fn != nil {
-			names = fv.Name() + "/" + fn.Name()
-		}
-		c.Check("registration pairs X with NotX: "+names, call.Pos(), okp, "a rule is registered with value lists that are not the fields X and NotX of the same message: a positive list is negated or a negation is applied to the wrong attribute")
-		// key -> generator type
-		key := ""
-		if s, ok := constString(args[2]); ok {
-			key = s
-		} else {
-			key = "<when.Key>"
-			// `case k == attrX:` -> the registration lies under the edge k == "attrX"
-			for _, i := range allIfs(newFn) {
-				b, ok := i.Cond.(*ssa.BinOp)
-				if !ok || b.Op != token.EQL {
-					continue
-				}
-				var ks string
-				if b.X == args[2] {
-					ks, ok = constString(b.Y)
-				} else if b.Y == args[2] {
-					ks, ok = constString(b.X)
-				} else {
-					continue
-				}
-				if ok && underEdges(newFn, call.Block(), []Edge{{i.Block(), 0}}) {
-					key = ks
-				}
+	// New itself and the helpers of the package it is split into (e.g. one for the when-conditions, one for from/to)
+	scanFns := []*ssa.Function{newFn}
+	seenScan := map[*ssa.Function]bool{newFn: true}
+	for i := 0; i < len(scanFns) && i < 12; i++ {
+		for _, h := range helperCalls(scanFns[i]) {
+			if !seenScan[h.callee] && !regNames[h.callee.Name()] {
+				seenScan[h.callee] = true
+				scanFns = append(scanFns, h.callee)
 			}
 		}
-		gt := "?"
-		if mi, ok := args[1].(*ssa.MakeInterface); ok {
-			if nn, ok := derefNamed(mi.X.Type()); ok {
-				gt = nn.Obj().Name()
+	}
+	for _, scanFn := range scanFns {
+		newFn := scanFn
+		eachInstr(newFn, func(ins ssa.Instruction) {
+			call, ok := ins.(*ssa.Call)
+			if !ok {
+				return
 			}
-		}
-		if key != "<when.Key>" {
-			if keyGen[key] == nil {
-				keyGen[key] = map[string]bool{}
+			o := calleeObj(call)
+			if o == nil || !regNames[o.Name()] {
+				return
 			}
-			keyGen[key][gt] = true
-		}
-	})
+			args := call.Call.Args // recv, g, key, values, notValues
+			if len(args) != 5 {
+				return
+			}
+			n++
+			fv, fn := fieldOfLoad(args[3]), fieldOfLoad(args[4])
+			okp := fv != nil && fn != nil && fn.Name() == "Not"+fv.Name()
+			if okp {
+				b1, _ := fieldLoadOf(args[3], fv)
+				b2, _ := fieldLoadOf(args[4], fn)
+				okp = b1 == b2 || sameValue(b1, b2)
+			}
+			// `when` conditions: Values / NotValues
+			names := "?"
+			if fv != nil && fn != nil {
+				names = fv.Name() + "/" + fn.Name()
+			}
+			c.Check("registration pairs X with NotX: "+names, call.Pos(), okp, "a rule is registered with value lists that are not the fields X and NotX of the same message: a positive list is negated or a negation is applied to the wrong attribute")
+			// key -> generator type
+			key := ""
+			if s, ok := constString(args[2]); ok {
+				key = s
+			} else {
+				key = "<when.Key>"
+				// `case k == attrX:` -> the registration lies under the edge k == "attrX"
+				for _, i := range allIfs(newFn) {
+					b, ok := i.Cond.(*ssa.BinOp)
+					if !ok || b.Op != token.EQL {
+						continue
+					}
+					var ks string
+					if b.X == args[2] {
+						ks, ok = constString(b.Y)
+					} else if b.Y == args[2] {
+						ks, ok = constString(b.X)
+					} else {
+						continue
+					}
+					if ok && underEdges(newFn, call.Block(), []Edge{{i.Block(), 0}}) {
+						key = ks
+					}
+				}
+			}
+			gt := "?"
+			if mi, ok := args[1].(*ssa.MakeInterface); ok {
+				if nn, ok := derefNamed(mi.X.Type()); ok {
+					gt = nn.Obj().Name()
+				}
+			}
+			if key != "<when.Key>" {
+				if keyGen[key] == nil {
+					keyGen[key] = map[string]bool{}
+				}
+				keyGen[key][gt] = true
+			}
+		})
+	}
 	for _, k := range sortedKeys(keyGen) {
 		c.Check("attribute "+k+" is bound to one generator", newFn.Pos(), len(keyGen[k]) == 1, "attribute key "+k+" is translated by different generators in different places: "+joinSorted(keyGen[k]))
 	}
@@ -427,7 +441,6 @@ func c08r7(c *Ctx) {
 	}
 	c.Floor(2)
 }
-
 
 // C08-R8: a generator that carries state (fields its methods read, e.g. the policy namespace used to expand a short
 // service-account name) is never constructed with that state left at the zero value: every composite literal of such a
